@@ -46,6 +46,8 @@ FA(args) == FnCall("FNA", args)    FB(args) == FnCall("FNB", args)
 T10 == { <<SDef("FNA", <<X>>, Bin("add", Bin("mul", X, LI(2)), Y))>>,
          <<SDef("FNB", <<X, Y>>, Bin("add", FA(<<X>>), Y))>>,
          <<SDef("FNA", <<XP>>, Bin("mul", XP, LI(3)))>>,
+         \* (a later DEF replaces an earlier one altogether, parameter count included)
+         <<SDef("FNA", <<X, Y>>, Bin("add", Bin("mul", X, LI(10)), Y))>>,
          <<SDef("FNA", <<X>>, Bin("add", FA(<<X>>), LI(1)))>>,       \* runaway recursion
          <<SDef("FNB", <<P, Q>>, Bin("sub", FA(<<FA(<<P>>)>>), Q))>>,
          \* parameters in every argument position of nested calls, built-ins and subscripts
